@@ -193,10 +193,11 @@ func c04e(c *Ctx, r *Report) {
 	ix0, isIx0 := a0.(*ast.IndexExpr)
 	ix1, isIx1 := a1.(*ast.IndexExpr)
 	switch {
-	case isIx0 && isIx1 && identObj(info, ix0.X) != nil && identObj(info, ix0.X) == identObj(info, ix1.X) && fold.Cond == nil:
+	case isIx0 && isIx1 && identObj(info, ix0.X) != nil && identObj(info, ix0.X) == identObj(info, ix1.X) && (fold.Cond == nil || lenNotOne(info, fold.Cond, identObj(info, ix0.X))):
 		// sliding window over S
 		form = "sliding window"
 		S := identObj(info, ix0.X)
+		condForm := fold.Cond != nil // `for len(S) != 1 { … }` followed by the store of S into the cell
 		if v, ok := constInt(info, ix0.Index); !ok || v != 0 {
 			bad = "the first operand is not the window's first element"
 		}
@@ -236,7 +237,24 @@ func c04e(c *Ctx, r *Report) {
 				bad = "an iteration does not advance the window by exactly one candidate"
 			}
 		}
-		if exits == 0 {
+		if condForm {
+			if exits != 0 {
+				bad = "the fold loop is left from inside although its condition `len(window) != 1` decides the end"
+			} else {
+				// the statement after the loop stores the one remaining candidate into the cell
+				stored := false
+				if nx := stmtAfter(f.Decl.Body, fold); nx != nil {
+					if as, ok := nx.(*ast.AssignStmt); ok && len(as.Lhs) == 1 && len(as.Rhs) == 1 && identObj(info, as.Rhs[0]) == S {
+						if _, isIx := unparen(as.Lhs[0]).(*ast.IndexExpr); isIx {
+							stored = true
+						}
+					}
+				}
+				if !stored {
+					bad = "the one remaining candidate is not stored into the cell right after the fold loop"
+				}
+			}
+		} else if exits == 0 {
 			bad = "the fold loop has no exit"
 		}
 		// the window starts as the whole candidate list
@@ -256,6 +274,7 @@ func c04e(c *Ctx, r *Report) {
 			if n != 2 || !okInit {
 				bad = "the window is not initialised once to the whole candidate list"
 			}
+			_ = condForm
 		}
 	case isIx1 && identObj(info, a0) != nil:
 		// indexed loop with a winner variable
@@ -704,7 +723,10 @@ func c04c(c *Ctx, r *Report) {
 			return true
 		})
 		if sw == nil {
-			r.Undecided(clause, "R4", fb.Name+"/assoc-switch", c.pos(fb.Decl.Pos()), "no switch on a precedence entry's AssocType")
+			// table form: `t, known := <package-level map>[prec.AssocType]; if !known { t = <default> }; sy.SetPrecType(t)`
+			if !assocTable(c, fb, pt, assoc2prec, &defaultPrec) {
+				r.Undecided(clause, "R4", fb.Name+"/assoc-switch", c.pos(fb.Decl.Pos()), "no switch on a precedence entry's AssocType (and no constant lookup table with an explicit default)")
+			}
 		} else {
 			pe := newPathEnum(info)
 			paths, err := pe.Enumerate([]ast.Stmt{sw})
@@ -1116,6 +1138,18 @@ func defaultPerIteration(info *types.Info, f *FuncRef, o types.Object, at ast.No
 		}
 	}
 	if dflt == nil {
+		// or: the value is (re)assigned on every arm of an if/else that is a top-level statement of an enclosing block
+		// before the literal — nothing of an earlier iteration survives either
+		for _, b := range blocks {
+			for _, st := range b.List {
+				if st.Pos() >= at.Pos() {
+					break
+				}
+				if is, ok := st.(*ast.IfStmt); ok && everyArmAssigns(info, is, o) {
+					return true
+				}
+			}
+		}
 		return false
 	}
 	ok := true
@@ -1130,4 +1164,151 @@ func defaultPerIteration(info *types.Info, f *FuncRef, o types.Object, at ast.No
 		return true
 	})
 	return ok
+}
+
+// everyArmAssigns: an if / else-if / else chain with a final else in which every arm assigns (or defines) o at its top level.
+func everyArmAssigns(info *types.Info, is *ast.IfStmt, o types.Object) bool {
+	assigns := func(list []ast.Stmt) bool {
+		for _, st := range list {
+			if as, ok := st.(*ast.AssignStmt); ok {
+				for _, l := range as.Lhs {
+					if identObj(info, l) == o {
+						return true
+					}
+				}
+			}
+		}
+		return false
+	}
+	for cur := is; cur != nil; {
+		if !assigns(cur.Body.List) {
+			return false
+		}
+		switch e := cur.Else.(type) {
+		case *ast.BlockStmt:
+			return assigns(e.List)
+		case *ast.IfStmt:
+			cur = e
+		default:
+			return false
+		}
+	}
+	return false
+}
+
+// lenNotOne: cond is `len(S) != 1` or `len(S) > 1`.
+func lenNotOne(info *types.Info, cond ast.Expr, S types.Object) bool {
+	be, ok := unparen(cond).(*ast.BinaryExpr)
+	if !ok || (be.Op != token.NEQ && be.Op != token.GTR) || S == nil {
+		return false
+	}
+	call, ok := unparen(be.X).(*ast.CallExpr)
+	if !ok || builtinName(info, call) != "len" || len(call.Args) != 1 || identObj(info, call.Args[0]) != S {
+		return false
+	}
+	v, isC := constInt(info, be.Y)
+	return isC && v == 1
+}
+
+// stmtAfter: the statement that directly follows s in its statement list (nil if none).
+func stmtAfter(root *ast.BlockStmt, s ast.Stmt) ast.Stmt {
+	pm := parentMap(root)
+	var list []ast.Stmt
+	switch p := pm[s].(type) {
+	case *ast.BlockStmt:
+		list = p.List
+	case *ast.CaseClause:
+		list = p.Body
+	case *ast.LabeledStmt:
+		return stmtAfter(root, p)
+	}
+	for i, st := range list {
+		if st == s && i+1 < len(list) {
+			return list[i+1]
+		}
+	}
+	return nil
+}
+
+// assocTable recognises the table form of the AssocType → precedence-type mapping in BuildLALR1 and fills the maps
+// the switch form fills.
+func assocTable(c *Ctx, fb *FuncRef, pt map[string]constant.Value, assoc2prec map[int64]string, defaultPrec *string) bool {
+	info := fb.Pkg.TypesInfo
+	precName := func(v constant.Value) string {
+		for n, cv := range pt {
+			if constant.Compare(v, token.EQL, cv) {
+				return n
+			}
+		}
+		return "?" + v.ExactString()
+	}
+	// the SetPrecType call and its argument
+	var arg types.Object
+	ast.Inspect(fb.Decl.Body, func(n ast.Node) bool {
+		if call, ok := n.(*ast.CallExpr); ok && len(call.Args) == 1 {
+			if fn := callee(info, call); fn != nil && fn.Name() == "SetPrecType" {
+				arg = identObj(info, call.Args[0])
+			}
+		}
+		return true
+	})
+	if arg == nil {
+		return false
+	}
+	var table *types.Var
+	var okVar types.Object
+	dflt := ""
+	nAssign := 0
+	ast.Inspect(fb.Decl.Body, func(n ast.Node) bool {
+		as, ok := n.(*ast.AssignStmt)
+		if !ok {
+			return true
+		}
+		for i, l := range as.Lhs {
+			if identObj(info, l) != arg {
+				continue
+			}
+			nAssign++
+			if len(as.Lhs) == 2 && len(as.Rhs) == 1 && i == 0 {
+				if ix, ok := unparen(as.Rhs[0]).(*ast.IndexExpr); ok && fieldNamed(info, ix.Index, "AssocType") {
+					if tv, ok := identObj(info, ix.X).(*types.Var); ok && tv.Pkg() != nil && tv.Parent() == tv.Pkg().Scope() {
+						table, okVar = tv, identObj(info, as.Lhs[1])
+					}
+				}
+			} else if len(as.Lhs) == len(as.Rhs) {
+				if cv := constOf(info, as.Rhs[i]); cv != nil {
+					// the default, assigned exactly under `!known`
+					atoms := guardAtoms(c, fb, as)
+					for _, a := range atoms {
+						if okVar != nil && a == "!($"+okVar.Name()+")" {
+							dflt = precName(cv)
+						}
+					}
+				}
+			}
+		}
+		return true
+	})
+	if table == nil || dflt == "" || nAssign != 2 {
+		return false
+	}
+	init, assigned := pkgVarInitOf(fb, table)
+	lit, ok := init.(*ast.CompositeLit)
+	if !ok || assigned {
+		return false
+	}
+	for _, el := range lit.Elts {
+		kv, ok := el.(*ast.KeyValueExpr)
+		if !ok {
+			return false
+		}
+		k, okk := constInt(info, kv.Key)
+		v := constOf(info, kv.Value)
+		if !okk || v == nil {
+			return false
+		}
+		assoc2prec[k] = precName(v)
+	}
+	*defaultPrec = dflt
+	return true
 }
